@@ -527,27 +527,82 @@ pub proof fn lemma_addr_ext(a: Addr, b: Addr)
 {}
 
 // ---------- block / env / message info ----------
+// cosmwasm_std::Timestamp stores NANOSECONDS (a Uint64). Model: nanos == secs * 10^9 + sub with sub < 10^9, so `seconds()` is exact and code that
+// looks at the sub-second part (nanos(), subsec_nanos(), comparisons of whole Timestamps) is not confused with code that uses whole seconds.
 #[derive(Clone, Copy, Debug, PartialEq, Eq)]
-pub struct Timestamp { pub secs: u64 }
+pub struct Timestamp { pub secs: u64, pub sub: u64 }
+pub open spec fn ts_secs(s: u64) -> Timestamp { Timestamp { secs: s, sub: 0 } }
+pub open spec fn ts_cmp(a: int, b: int) -> core::cmp::Ordering {
+    if a < b { core::cmp::Ordering::Less } else if a == b { core::cmp::Ordering::Equal } else { core::cmp::Ordering::Greater }
+}
 
 impl Timestamp {
+    pub open spec fn nanos_spec(self) -> int { self.secs * 1_000_000_000 + self.sub }
+
     pub fn seconds(&self) -> (r: u64)
         ensures r == self.secs,
     { self.secs }
 
     #[verifier::external_body]
+    pub fn subsec_nanos(&self) -> (r: u64)
+        ensures r == self.sub, r < 1_000_000_000,
+    { unimplemented!() }
+
+    #[verifier::external_body]
+    pub fn nanos(&self) -> (r: u64)
+        ensures r as int == self.nanos_spec(), self.sub < 1_000_000_000,
+    { unimplemented!() }
+
+    #[verifier::external_body]
     pub fn plus_seconds(&self, addition: u64) -> (r: Timestamp)
-        ensures self.secs + addition <= u64::MAX, r.secs == self.secs + addition,
+        ensures self.secs + addition <= u64::MAX, r.secs == self.secs + addition, r.sub == self.sub,
+    { unimplemented!() }
+
+    // aborts when the result would be negative (the real code subtracts Uint64 nanoseconds)
+    #[verifier::external_body]
+    pub fn minus_seconds(&self, subtrahend: u64) -> (r: Timestamp)
+        requires UINT_OPS_TOTAL() ==> self.secs >= subtrahend,
+        ensures self.secs >= subtrahend, r.secs == self.secs - subtrahend, r.sub == self.sub,
+    { unimplemented!() }
+
+    #[verifier::external_body]
+    pub fn plus_nanos(&self, addition: u64) -> (r: Timestamp)
+        requires UINT_OPS_TOTAL() ==> self.nanos_spec() + addition <= u64::MAX,
+        ensures r.nanos_spec() == self.nanos_spec() + addition, r.sub < 1_000_000_000, self.sub < 1_000_000_000,
+    { unimplemented!() }
+
+    #[verifier::external_body]
+    pub fn minus_nanos(&self, subtrahend: u64) -> (r: Timestamp)
+        requires UINT_OPS_TOTAL() ==> self.nanos_spec() >= subtrahend,
+        ensures r.nanos_spec() == self.nanos_spec() - subtrahend, r.sub < 1_000_000_000, self.sub < 1_000_000_000,
     { unimplemented!() }
 
     pub fn from_seconds(s: u64) -> (r: Timestamp)
-        ensures r.secs == s,
-    { Timestamp { secs: s } }
+        ensures r == ts_secs(s),
+    { Timestamp { secs: s, sub: 0 } }
+
+    #[verifier::external_body]
+    pub fn from_nanos(n: u64) -> (r: Timestamp)
+        ensures r.secs == n / 1_000_000_000, r.sub == n % 1_000_000_000,
+    { unimplemented!() }
 }
 impl Default for Timestamp {
     fn default() -> (r: Timestamp)
-        ensures r.secs == 0,
-    { Timestamp { secs: 0 } }
+        ensures r == ts_secs(0),
+    { Timestamp { secs: 0, sub: 0 } }
+}
+// whole Timestamps compare by their nanoseconds
+impl vstd::std_specs::cmp::PartialOrdSpecImpl for Timestamp {
+    open spec fn obeys_partial_cmp_spec() -> bool { true }
+    open spec fn partial_cmp_spec(&self, other: &Timestamp) -> Option<core::cmp::Ordering> {
+        Some(ts_cmp(self.nanos_spec(), other.nanos_spec()))
+    }
+}
+impl std::cmp::PartialOrd for Timestamp {
+    #[verifier::external_body]
+    fn partial_cmp(&self, other: &Timestamp) -> (r: Option<core::cmp::Ordering>)
+        ensures r == Some(ts_cmp(self.nanos_spec(), other.nanos_spec())),
+    { unimplemented!() }
 }
 
 #[derive(Clone, Copy, Debug, PartialEq, Eq)]
